@@ -9,7 +9,8 @@
 (***************************************************************************)
 EXTENDS HpoSetOps, Json
 
-CONSTANTS MaxFacts, EmitAll, WithPairs, WithExtras
+CONSTANTS MaxFacts, EmitAll, WithPairs, WithExtras,
+          Prefix      \* TRUE: every kind starts with one record (id 9) without terms, so that n/N < 1 for linked terms
 
 VARIABLE facts      \* history: Seq of [k, x, t] (t = 0: a record without term)
 
@@ -24,14 +25,15 @@ HInit ==
   /\ children = [t \in Ids |-> ChildrenOf(parents, t)]
   /\ allp = [t \in Ids |-> Anc(parents, t)]
   /\ ann = [k \in Kinds |-> EmptyRel]
-  /\ rec = [k \in Kinds |-> <<>>]
+  /\ rec = IF Prefix THEN [k \in Kinds |-> (9 :> [name |-> (CASE k = "gene" -> 1 [] k = "omim" -> 2 [] k = "orpha" -> 3), hpos |-> {}])]
+            ELSE [k \in Kinds |-> <<>>]
   /\ ic = [k \in Kinds |-> [t \in Ids |-> <<0, 0>>]]
-  /\ nfact = 0
+  /\ nfact = IF Prefix THEN 3 ELSE 0
   /\ bmode = "none"
-  /\ facts = <<>>
+  /\ facts = IF Prefix THEN <<[k |-> "gene", x |-> 9], [k |-> "omim", x |-> 9], [k |-> "orpha", x |-> 9]>> ELSE <<>>
 
 HNext ==
-  /\ Len(facts) < MaxFacts
+  /\ Len(facts) < MaxFacts + (IF Prefix THEN 3 ELSE 0)
   /\ \E k \in Kinds : \E x \in RecIds[k] :
        \/ AddRecord(k, x) /\ facts' = Append(facts, [k |-> k, x |-> x])
        \/ \E t \in Ids : Annotate(k, x, t) /\ facts' = Append(facts, [k |-> k, x |-> x, t |-> t])
@@ -46,10 +48,11 @@ Expect == [ arena |-> arena, edges |-> EdgeSeq, facts |-> facts, expect |-> Proj
             paths |-> IF WithExtras THEN PathPairs ELSE <<>>,
             sets |-> IF WithExtras THEN SetInfos ELSE <<>> ]
 
-Emit == (EmitAll \/ Len(facts) = MaxFacts) => PrintT(<<"REPLAY", ToJson(Expect)>>)
+Emit == (EmitAll \/ Len(facts) = MaxFacts + (IF Prefix THEN 3 ELSE 0)) => PrintT(<<"REPLAY", ToJson(Expect)>>)
 
 RecsSmall == [k \in Kinds |-> IF k = "gene" THEN {1, 2} ELSE {1}]
 (* different totals per kind, so a wrong total or a kind mix-up changes a value (C03) *)
 RecsIC == [k \in Kinds |-> IF k = "gene" THEN {1, 2, 3} ELSE IF k = "omim" THEN {1, 2} ELSE {1}]
+RecsICP == [k \in Kinds |-> IF k = "gene" THEN {1, 2, 9} ELSE IF k = "omim" THEN {1, 9} ELSE {1, 9}]
 
 =============================================================================
